@@ -552,6 +552,18 @@ func rebuild(kw, inner string) string {
 			} else if pos, ok := positiveOf(cnd); ok {
 				cnd, a, bb = pos, bb, a
 			}
+			// if(A, if(B, X, Y), Y) is if((A && B), X, Y): the nested test under the same alternative
+			if strings.HasPrefix(a, "if(") && matchingClose(a, 2) == len(a)-1 {
+				if in := splitTop(a[3:len(a)-1], ','); len(in) == 3 {
+					c2, x, y := strings.TrimSpace(in[0]), strings.TrimSpace(in[1]), strings.TrimSpace(in[2])
+					switch {
+					case y == bb:
+						return rebuild("if(", rebuildInfix(cnd+" && "+c2)+", "+x+", "+bb)
+					case x == bb:
+						return rebuild("if(", rebuildInfix(cnd+" && "+negateAtom(c2))+", "+y+", "+bb)
+					}
+				}
+			}
 			// a conditional between boolean constants is a boolean expression (same short-circuit evaluation)
 			switch {
 			case a == "true" && bb == "false":
@@ -567,7 +579,22 @@ func rebuild(kw, inner string) string {
 			case bb == "true":
 				return "(not(" + cnd + ") || " + a + ")"
 			}
+			// a statement conditional with nothing to do on one side is the one-armed conditional on the other
+			if a == "seq[]" {
+				return "if(" + negateAtom(cnd) + ", " + bb + ")"
+			}
+			if bb == "seq[]" {
+				return "if(" + cnd + ", " + a + ")"
+			}
 			return "if(" + cnd + ", " + a + ", " + bb + ")"
+		}
+		if len(parts) == 2 {
+			// one-armed: the condition with its negations pushed inward
+			cnd := strings.TrimSpace(parts[0])
+			if strings.HasPrefix(cnd, "not(") && matchingClose(cnd, 3) == len(cnd)-1 {
+				cnd = rebuild("not(", cnd[4:len(cnd)-1])
+			}
+			return "if(" + cnd + ", " + strings.TrimSpace(parts[1]) + ")"
 		}
 		return kw + inner + ")"
 	case "not(":
@@ -589,8 +616,14 @@ func rebuild(kw, inner string) string {
 		}
 		if strings.HasPrefix(x, "(") && matchingClose(x, 0) == len(x)-1 {
 			in := x[1 : len(x)-1]
-			for _, pr := range [][2]string{{" eq ", " ne "}, {" ne ", " eq "}} {
-				if ps := splitTopStr(in, pr[0]); len(ps) == 2 {
+			for _, pr := range [][2]string{{" eq ", " ne "}, {" ne ", " eq "}, {" == ", " != "}, {" != ", " == "}} {
+				if ps := splitTopStr(in, pr[0]); len(ps) == 2 && !strings.Contains(in, " && ") && !strings.Contains(in, " || ") {
+					return "(" + ps[0] + pr[1] + ps[1] + ")"
+				}
+			}
+			// ordered comparisons of integers (an operand is a length or an integer literal): not((a >= b)) is (a < b)
+			for _, pr := range [][2]string{{" >= ", " < "}, {" < ", " >= "}, {" <= ", " > "}, {" > ", " <= "}} {
+				if ps := splitTopStr(in, pr[0]); len(ps) == 2 && !strings.Contains(in, " && ") && !strings.Contains(in, " || ") && (orderedAreIntegers || integerOperand(ps[0]) || integerOperand(ps[1])) {
 					return "(" + ps[0] + pr[1] + ps[1] + ")"
 				}
 			}
@@ -626,12 +659,39 @@ func splitTopStr(s, sep string) []string {
 	return append(parts, s[start:])
 }
 
+var intLitRe = regexp.MustCompile(`^-?[0-9]+$`)
+
+// integerOperand: the operand is integer-typed by its spelling (a length, an integer literal, or a sum/difference
+// with one).
+func integerOperand(x string) bool {
+	x = strings.TrimSpace(x)
+	for strings.HasPrefix(x, "(") && matchingClose(x, 0) == len(x)-1 {
+		x = strings.TrimSpace(x[1 : len(x)-1])
+	}
+	if intLitRe.MatchString(x) || (strings.HasPrefix(x, "len(") && matchingClose(x, 3) == len(x)-1) {
+		return true
+	}
+	for _, op := range []string{" + ", " - "} {
+		if ps := splitTopStr(x, op); len(ps) >= 2 {
+			for _, p := range ps {
+				if integerOperand(p) {
+					return true
+				}
+			}
+		}
+	}
+	return false
+}
+
 // positiveOf: for a condition (A ne B) the equality (A eq B) it negates.
 func positiveOf(cnd string) (string, bool) {
 	if strings.HasPrefix(cnd, "(") && matchingClose(cnd, 0) == len(cnd)-1 {
 		in := cnd[1 : len(cnd)-1]
 		if ps := splitTopStr(in, " ne "); len(ps) == 2 && !strings.Contains(in, " && ") && !strings.Contains(in, " || ") {
 			return "(" + ps[0] + " eq " + ps[1] + ")", true
+		}
+		if ps := splitTopStr(in, " != "); len(ps) == 2 && !strings.Contains(in, " && ") && !strings.Contains(in, " || ") {
+			return "(" + ps[0] + " == " + ps[1] + ")", true
 		}
 		// the condition of a conditional is never a disjunction: (A || B) is the negation of (not(A) && not(B))
 		if ps := splitTopStr(in, " || "); len(ps) >= 2 {
